@@ -163,10 +163,11 @@ def floatOp (env : Array Dec) (xs fps : String) : Step :=
       match e.splitOn " " with
       | ["inf", s] => if x.form == .inf && (s == "1") == x.neg then none else some "Float: wrong infinity"
       | ["zero", s] => if x.form == .zero && (s == "1") == x.neg then none else some "Float: wrong zero"
-      | ["fin", s, ws, e2, _p, _acc] =>
+      | ["fin", s, ws, e2, gp, _acc] =>
         (match parseWords? ws, e2.toInt? with
         | some (M, _), some e2 =>
           if x.form != .finite then some "Float: special value became finite" else
+          if gp.toNat? != some fp then some s!"Float: result precision {gp}, want {fp}" else
           if (s == "1") != x.neg then some "Float: sign" else
           let q := decRat x
           let v : Rat := (M : Rat) * Spec.pow2Rat e2
@@ -184,6 +185,7 @@ def doOp5 (env : Array Dec) (c : Ctx) (toks : List String) : Step :=
   | ["float32", x] => toFloatOp env "float32" x
   | "setfloat" :: rest => setFloatOp env rest
   | ["float", x, p, _m] => floatOp env x p
+  | ["float", x, p, _m, _preset] => floatOp env x p
   | _ => doOp4 env c toks
 
 end Driver
